@@ -12,7 +12,34 @@ import (
 
 func init() { register("quorum", cmdQuorum) }
 
-func memberId(i int) primitives.MemberId { return primitives.MemberId(fmt.Sprintf("member-%03d", i)) }
+// idShape: how the abstract member index becomes a concrete id.  Ids are opaque byte strings of any length; two indices
+// must never be confused whatever they look like.
+//   0 short distinct ids                         1 40-byte ids that differ only in their last bytes (common 32-byte prefix)
+//   2 ids that are prefixes of one another      3 ids that differ only by trailing zero bytes
+//   4 one-byte ids and the empty id (index 0, an outsider)
+var idShape int
+
+func memberId(i int) primitives.MemberId {
+	switch idShape {
+	case 1:
+		return primitives.MemberId(fmt.Sprintf("lean-helix-committee-member-with-long-id-%04d", i))
+	case 2:
+		b := make([]byte, i+1)
+		for k := range b {
+			b[k] = 'p'
+		}
+		return primitives.MemberId(b)
+	case 3:
+		b := append([]byte("zero-padded-member"), make([]byte, i)...)
+		return primitives.MemberId(b)
+	case 4:
+		if i == 0 {
+			return primitives.MemberId{}
+		}
+		return primitives.MemberId([]byte{byte(i)})
+	}
+	return primitives.MemberId(fmt.Sprintf("member-%03d", i))
+}
 
 func committeeOf(ws []uint64) []interfaces.CommitteeMember {
 	out := make([]interfaces.CommitteeMember, len(ws))
@@ -43,7 +70,7 @@ func quorumCall(out *ndjson, ws []uint64, ids []int) {
 	weights := quorum.GetWeights(com)
 	isq, isqW, isqQ := quorum.IsQuorum(idsOf(ids), com)
 	hh, hhW, hhB := quorum.HasHonest(idsOf(ids), com)
-	out.emit(obj{"op": "call", "w": limbsAll(ws), "ids": ids,
+	out.emit(obj{"op": "call", "shape": idShape, "w": limbsAll(ws), "ids": ids,
 		"q": limbs(uint64(quorum.CalcQuorumWeight(weights))), "f": limbs(uint64(quorum.CalcByzMaxWeight(weights))),
 		"isq": isq, "isq_w": limbs(uint64(isqW)), "isq_q": limbs(uint64(isqQ)),
 		"hh": hh, "hh_w": limbs(uint64(hhW)), "hh_b": limbs(uint64(hhB))})
@@ -73,7 +100,7 @@ func quorumPair(out *ndjson, ws []uint64, a, b []int) {
 	hhA, _, _ := quorum.HasHonest(idsOf(a), com)
 	hhB, _, _ := quorum.HasHonest(idsOf(b), com)
 	isqCA, _, _ := quorum.IsQuorum(idsOf(complement(len(ws), a)), com)
-	out.emit(obj{"op": "pair", "w": limbsAll(ws), "a": a, "b": b,
+	out.emit(obj{"op": "pair", "shape": idShape, "w": limbsAll(ws), "a": a, "b": b,
 		"isq_a": isqA, "isq_b": isqB, "hh_a": hhA, "hh_b": hhB, "isq_comp_a": isqCA})
 }
 
@@ -172,6 +199,10 @@ func cmdQuorum(args []string) int {
 			for _, l := range e["w"].([]interface{}) {
 				ws = append(ws, unlimbs(l))
 			}
+			idShape = 0
+			if sh, ok := e["shape"].(float64); ok {
+				idShape = int(sh)
+			}
 			if e["op"] == "call" {
 				quorumCall(out, ws, intList(e["ids"]))
 			} else {
@@ -189,6 +220,7 @@ func cmdQuorum(args []string) int {
 		for j := range ws {
 			ws[j] = uint64(r.Intn(7))
 		}
+		idShape = i % 5
 		quorumCall(out, ws, randIds(r, n))
 		quorumPair(out, ws, randSubset(r, n, 0.6), randSubset(r, n, 0.6))
 	}
@@ -206,6 +238,7 @@ func cmdQuorum(args []string) int {
 			} else {
 				ws = splitTotal(r, total, n)
 			}
+			idShape = r.Intn(5)
 			quorumCall(out, ws, randIds(r, n))
 			quorumCall(out, ws, randSubset(r, n, 0.7))
 			a := randSubset(r, n, 0.7)
@@ -222,6 +255,7 @@ func cmdQuorum(args []string) int {
 			total >>= uint(r.Intn(40))
 		}
 		ws := splitTotal(r, total, n)
+		idShape = r.Intn(5)
 		quorumCall(out, ws, randIds(r, n))
 		a := randSubset(r, n, 0.75)
 		quorumPair(out, ws, a, randSubset(r, n, 0.75))
